@@ -82,6 +82,18 @@ TIE = {
 }
 
 
+# the directory given with -s is not a package: the analysed package is the nearest one below it (fewest path segments),
+# whatever the order in which the file system enumerates the sub-directories ("aaa" holds the deeper one, "zzz" the nearer one,
+# and the other way round)
+ROOTS = {
+    "rootpk": {"aaa/deep/inner/__init__.py": "", "aaa/deep/inner/modi.py": "def inner_fun() -> int:\n    ...\n",
+               "zzz/top/__init__.py": "", "zzz/top/modt.py": "class Top:\n    pass\n"},
+    "rootpq": {"zzz/deep/inner/__init__.py": "", "zzz/deep/inner/modi.py": "def inner_fun() -> int:\n    ...\n",
+               "aaa/top/__init__.py": "", "aaa/top/modt.py": "class Top:\n    pass\n",
+               "mmm/mid/way/down/__init__.py": "", "mmm/mid/way/down/modd.py": "def down() -> int:\n    ...\n"},
+}
+
+
 def main(v: Verdict) -> None:
     recs = generate(v, "Determinism", "C08_MC.cfg" if TIER == "quick" else "C08_MC_thorough.cfg", min_records=1)
     if not recs:
@@ -89,6 +101,7 @@ def main(v: Verdict) -> None:
     envs = recs[0]
     envs.sort(key=lambda e: (e["seed"] != 0 or e["glob"] != 0 or e["cwd"] != "parent" or e["spelling"] != "abs" or e["rep"] != 1, json.dumps(e, sort_keys=True)))
     pkgs = {"detpk": write_pkg(RICH, "detpk"), "tiepk": write_pkg(TIE, "tiepk")}
+    pkgs.update({name: write_pkg(files, name) for name, files in ROOTS.items()})
     jobs, meta = [], []
     for name, d in pkgs.items():
         for e in envs:
